@@ -230,6 +230,23 @@ def gen_whole(rng, tier, ctx):
                 b = bytearray(raw)
                 struct.pack_into("<I", b, q + 12, rng.choice((0x7FFFFFFF, 0xFFFFFFFF, 50000000)))
                 cases.append((kind, bytes(b)))
+    # crafted binary XML: namespace prefixes, tags and attribute names with characters lxml rejects (the printer repairs some and
+    # gives up on others - either way it has to come back), and start tags with thousands of attributes that have no name
+    from tools.writers import axmlwriter as W
+    U = "http://schemas.android.com/apk/res/android"
+    for ch in "'\\\t\r\n\"<&:; \x00\x7f\u2028":
+        for prefix, uri in (("a" + ch + "b", U), (ch, "u")):
+            if True:
+                try:
+                    raw, _ = W.build([("ns", prefix, uri, [("el", None, "manifest", [(uri, "name", None, 3, "v"), (None, "x" + ch, None, 3, "w")],
+                                                               [("el", None, "t" + ch, [], [])])])], utf8=rng.random() < 0.5)
+                    cases.append(("axml", raw))
+                except Exception:
+                    pass
+    for n in ((1200, 3000) if tier != "thorough" else (1137, 1138, 1200, 3000, 8000, 20000)):
+        for name in ("", "\x00"):
+            raw, _ = W.build([("ns", "android", U, [("el", None, "manifest", [(U if k % 2 else None, name, None, 0x10, k) for k in range(n)], [])])], utf8=False)
+            cases.append(("axml", raw))
     for _ in range(500 if tier == "thorough" else 90):
         kind, raw = rng.choice(base)
         b = bytearray(raw)
